@@ -62,6 +62,18 @@ pub fn check_header(code: &str, d: &Decl) -> Result<(), String> {
             expect(format!("{n}:{},", strip_ws(ty)), "parameter with its declared type")?;
         }
     }
+    // the names as whole tokens (white space is not compared above, so `mut ex: T` would pass for `mutex: T`)
+    let raw = &code[..end];
+    for (n, _sep, _ty) in &d.params {
+        let ok = raw.match_indices(n.as_str()).any(|(i, _)| {
+            let before = raw[..i].chars().next_back();
+            let after = raw[i + n.len()..].trim_start();
+            !before.map_or(false, |c| c.is_alphanumeric() || c == '_') && after.starts_with(':')
+        });
+        if !ok {
+            return Err(format!("parameter `{n}` does not occur as a name of its own (a whole token followed by `:`) in the generated signature"));
+        }
+    }
     // exactly the declared parameters: nothing but the return type may follow
     let tail = &head[pos.get()..];
     if !tail.starts_with(")->io::Result<()>") {
@@ -363,7 +375,8 @@ pub fn cases(mix: &str, n: usize, seed: u64) -> Vec<Case> {
             // one-element tuples and trailing commas are significant to rustc: `(A,)` is not `(A)`
             "(A,)", "(A, B,)", "Vec<(Foo,)>", "HashMap<K, V,>", "&[(u8,)]", "((A,),)", "Foo<'a, T>", "(Content,)", "&'a (A,)",
         ];
-        let names: &[&str] = &["a", "_ructe_out_", "W", "out", "Content", "content", "io", "b2", "_"];
+        // (names that begin like a keyword are ordinary names)
+        let names: &[&str] = &["a", "_ructe_out_", "W", "out", "Content", "content", "io", "b2", "_", "mutex", "muted", "refs", "selfish", "dynamo", "implicit"];
         let seps: &[&str] = &[": ", ":", " : ", " :", ":  ", ":\n", ":\t"];
         for _ in 0..n / 2 {
             let mut s = Vec::new();
